@@ -394,6 +394,9 @@ def run(ctx):
     ctx.sample({"call": "median_low([5, 1, 3])", "result": 3})
     ctx.sample({"call": "bit_rotate_left_32(2147483648, 1)", "result": 1})
     ctx.sample({"call": cases[0][2], "vars": {k: proto.show(v) for k, v in cases[0][3].items()}})
+    # results of non-mutating operations are independent of their inputs (strings included); parameter defaults are per call
+    from harness import progcheck as _pc
+    _pc.run_templates(ctx, common.independence_cases(), "result-independence")
     common.replay_known(ctx)
 
 
